@@ -331,7 +331,11 @@ class load_extension:
         return {"deterministic": eq(result, ghost("std_ext", "Extension", name)),
                 "array_def": implies(name == "collections.array", has(result.types, "array")),
                 "list_def": implies(name == "collections.list", has(result.types, "List")),
-                "static_array_def": implies(name == "collections.static_array", has(result.types, "static_array"))}
+                "static_array_def": implies(name == "collections.static_array", has(result.types, "static_array")),
+                "int_def": implies(name == "arithmetic.int.types", has(result.types, "int")),
+                "float_def": implies(name == "arithmetic.float.types", has(result.types, "float64")),
+                "string_def": implies(name == "prelude", has(result.types, "string") and has(result.operations, "MakeTuple")
+                                      and has(result.operations, "UnpackTuple") and has(result.operations, "Noop"))}
 
 
 @spec
@@ -351,7 +355,10 @@ class array_init:
                 and not (cls_is(size, hugr.tys.VariableArg) and cls_is(as_cls(size, hugr.tys.VariableArg).param, hugr.tys.BoundedNatParam))}
 
     def ensures(self, ty, size, result):
-        return {"elem_is_arg_1": elem_arg_ok(self, 1, 2) and same_obj(as_cls(nth(self.args, 1), TypeTypeArg).ty, ty)}
+        return {"elem_is_arg_1": elem_arg_ok(self, 1, 2) and same_obj(as_cls(nth(self.args, 1), TypeTypeArg).ty, ty),
+                "size_is_arg_0": implies(isinstance(size, int), cls_is(nth(self.args, 0), hugr.tys.BoundedNatArg) and as_cls(nth(self.args, 0), hugr.tys.BoundedNatArg).n == size),
+                "array_def": implies(has(ghost("std_ext", "Extension", "collections.array").types, "array"),
+                                     same_obj(self.type_def, get(ghost("std_ext", "Extension", "collections.array").types, "array")))}
 
 
 @contract("hugr.std.collections.array.Array.type_bound", props=["C07"])
@@ -378,7 +385,8 @@ class list_init:
         return {}
 
     def ensures(self, ty, result):
-        return {"elem_is_arg_0": elem_arg_ok(self, 0, 1) and same_obj(as_cls(nth(self.args, 0), TypeTypeArg).ty, ty)}
+        return {"elem_is_arg_0": elem_arg_ok(self, 0, 1) and same_obj(as_cls(nth(self.args, 0), TypeTypeArg).ty, ty),
+                "list_def": same_obj(self.type_def, get(ghost("std_ext", "Extension", "collections.list").types, "List"))}
 
 
 @contract("hugr.std.collections.list.List.type_bound", props=["C07"])
@@ -407,6 +415,7 @@ class static_array_init:
 
     def ensures(self, ty, result):
         return {"elem_is_arg_0": elem_arg_ok(self, 0, 1) and same_obj(as_cls(nth(self.args, 0), TypeTypeArg).ty, ty),
+                "static_array_def": same_obj(self.type_def, get(ghost("std_ext", "Extension", "collections.static_array").types, "static_array")),
                 "P_element_copyable": cp(ty)}
 
 
